@@ -78,21 +78,39 @@ Section Model.
     | VTensor vs => check_tensor p b var vs
     end.
 
+  (* bounds declared for ONE component of a non-scalar variable (`@Bounds s(k) in ...`): the emitted call is the
+     scalar check on `s[k]`, named "s(k)"; only that component is concerned (a component index that does not
+     exist in the current space dimension is not modelled: nothing is checked) *)
+  Definition check_component (p : policy) (b : bounds T) (var : nat) (k : nat) (x : value) : trace :=
+    match x with
+    | VScalar v => check1 p b (var, 0) v
+    | VTensor vs => match nth_error vs k with
+                    | Some v => check1 p b (var, S k) v
+                    | None => ok
+                    end
+    end.
+
   (* ---- the code emitted by mfront for a behaviour ---------------------------------------------- *)
+  (* one `vardecl` per scalar/tensor variable and per ELEMENT of an array of variables (bounds may be declared for the
+     whole array, `@Bounds x in ...`, or per element, `@Bounds x[1] in ...`: the emitted check of element i uses the
+     bounds of element i) *)
   Inductive category := MaterialProperty | Persistent | ExternalState | LocalVar.
   Record vardecl := VD {
     vd_id : nat;                       (* identifies the variable in messages *)
     vd_cat : category;
     vd_bounds : option (bounds T);     (* @Bounds *)
-    vd_phys : option (bounds T) }.     (* @PhysicalBounds *)
+    vd_phys : option (bounds T);       (* @PhysicalBounds *)
+    vd_bcomp : option nat;             (* @Bounds v(k): component concerned (None: all) *)
+    vd_pcomp : option nat }.           (* @PhysicalBounds v(k) *)
 
-  (* one emitted call: physical? / variable / checks `v` or `v+dv` / bounds *)
-  Record call := Call { c_phys : bool; c_var : nat; c_plus_d : bool; c_bounds : bounds T }.
+  (* one emitted call: physical? / variable / checks `v` or `v+dv` / bounds / single component *)
+  Record call := Call { c_phys : bool; c_var : nat; c_plus_d : bool; c_bounds : bounds T; c_comp : option nat }.
 
   Definition calls_of (phys : bool) (with_d : bool) (d : vardecl) : list call :=
     match (if phys then vd_phys d else vd_bounds d) with
     | None => []
-    | Some b => Call phys (vd_id d) false b :: (if with_d then [Call phys (vd_id d) true b] else [])
+    | Some b => let k := if phys then vd_pcomp d else vd_bcomp d in
+                Call phys (vd_id d) false b k :: (if with_d then [Call phys (vd_id d) true b k] else [])
     end.
 
   Definition of_cat (c : category) (ds : list vardecl) : list vardecl :=
@@ -109,7 +127,9 @@ Section Model.
 
   (* BehaviourCodeGeneratorBase::writeBehaviourCheckBounds: all physical bounds, then all bounds *)
   Definition checkBounds_calls (ds : list vardecl) : list call := block true ds ++ block false ds.
-  (* end of integrate(): persistent variables, physical bounds then bounds *)
+  (* end of integrate() (Default DSL: BehaviourCodeGeneratorBase::writeBehaviourIntegrator; Implicit:
+     ImplicitCodeGeneratorBase; IsotropicMisesCreep: IsotropicMisesCreepCodeGenerator -- same two loops):
+     persistent variables at their end-of-step values, physical bounds then bounds *)
   Definition integrate_calls (ds : list vardecl) : list call :=
     flat_map (calls_of true false) (of_cat Persistent ds) ++ flat_map (calls_of false false) (of_cat Persistent ds).
 
@@ -119,7 +139,11 @@ Section Model.
   (* a physical-bounds call is emitted WITHOUT the policy argument: the C++ default `p = Strict` applies *)
   Definition exec_call (quantity dim2 : bool) (p : policy) (e : env) (c : call) : trace :=
     let tagv := c_var c + (if c_plus_d c then 1000 else 0) in
-    check_value quantity dim2 (if c_phys c then Strict else p) (c_bounds c) tagv (e (c_var c) (c_plus_d c)).
+    let pol := if c_phys c then Strict else p in
+    match c_comp c with
+    | None => check_value quantity dim2 pol (c_bounds c) tagv (e (c_var c) (c_plus_d c))
+    | Some k => check_component pol (c_bounds c) tagv k (e (c_var c) (c_plus_d c))
+    end.
 
   Definition exec (quantity dim2 : bool) (p : policy) (e : env) (cs : list call) : trace :=
     seqs (map (exec_call quantity dim2 p e) cs).
